@@ -187,10 +187,10 @@ theorem counted_closed (e : Env) : Closed e (Counted e) where
     unfold reserveAt
     exact counted_set_slot h r i _ (fun t ht => by rw [reserve_usage] at ht; exact ht)
   release := by
-    intro σ r i t a _ _ _ h
+    intro σ r i t a _ _ _ _ h
     exact counted_set_slot h r i _ (fun t' ht => release_entry _ t t' a ht)
   book := by
-    intro σ r i t _ _ _ _ _ h
+    intro σ r i t _ _ _ _ _ _ h
     exact counted_bookSlot e σ r i t h
 
 theorem counted_init (e : Env) : Counted e (initState e) := by
@@ -204,7 +204,7 @@ theorem counted_init (e : Env) : Counted e (initState e) := by
 
 /-- **every state a scenario run ends in**: each counter is at least the number of ledger entries its limit covers -/
 theorem runScenario_counted (e : Env) (wf : WF e) : Counted e (runScenario e) :=
-  runScenario_closed (counted_closed e) wf (counted_init e)
+  runScenario_closed (counted_closed e) wf (fun _ => trivial) (counted_init e)
 
 /-- hence the number of covered ledger entries of any period is at most the limit -/
 theorem runScenario_entries_le_limit (e : Env) (wf : WF e) (lid : Nat) (p : Int) (L : List Trip) (hp : 0 ≤ p)
